@@ -37,6 +37,9 @@ def _run(self):
 
 def _post_init(self):
     object.__setattr__(self, 'derived', ('derived', canon(self.p)))
+    # a post_init may also use what labtech itself has derived for the task by then
+    object.__setattr__(self, 'derived_key', getattr(self, 'cache_key', '<no cache_key yet>'))
+    object.__setattr__(self, 'derived_is_task', labtech.is_task(self))
 
 
 def _mk(name, module, *, fields=('p',), extra=None, **opts):
